@@ -542,8 +542,10 @@ class DiameterURIType(OctetStringType):
             raise DataTypeError("invalid data format. Data MUST be of "\
                                 "'str' or 'bytes' and follow the URI syntax")
 
-        pattern = r"aaa[s]{0,1}://(?!\d\.)[a-zA-Z1-9_\-].{1,62}"\
-                  r"[a-zA-Z1-9_\-](\:\b([1-9]|[1-9][0-9]|[1-9]"\
+        #: The host may hold the digit 0 anywhere but in front (hss0,
+        #: node10.example.com) and may be as short as two characters.
+        pattern = r"aaa[s]{0,1}://(?!\d\.)[a-zA-Z1-9_\-].{0,62}"\
+                  r"[a-zA-Z0-9_\-](\:\b([1-9]|[1-9][0-9]|[1-9]"\
                   r"[0-9][0-9]|[1-9][0-9][0-9][0-9]|[1-3][0-9]"\
                   r"[0-9][0-9][0-9]|4[0-8][0-9][0-9][0-9]|490[0-9]"\
                   r"[0-9]|491[0-4][0-9]|49150|49151)\b){0,1}(;transport"\
